@@ -503,7 +503,7 @@ func run(r *mon.Run) {
 	}
 	nRand := 300
 	if r.Thorough {
-		nRand = 6000
+		nRand = 200000
 	}
 	for i := 0; i < nRand; i++ {
 		if !r.Mine(i) {
